@@ -17,7 +17,7 @@ Built on the shared pulse-template model `QP.PT` (`compile`, `createProgram`, `S
 * `visible` — the independent enumeration of what the *played* (= visited by instantiation) nodes must
   evaluate, each paired with the scope that node sees: every parameter constraint (`isCons`), and the
   expressions that are evaluated unconditionally (`needs`: repetition counts, loop ranges, constant
-  durations, table entries, eagerly mapped parameters).  No builder, no waveforms, no error handling.
+  durations, table entries, eagerly mapped parameters) and the keys an eagerly mapping node demands.  No builder, no waveforms, no error handling.
 * `consOutcome` — the judge: validate the visible constraints in visiting order.
 -/
 namespace QP.C03
@@ -201,10 +201,14 @@ structure Vis where
   scope : Scope
   expr : Expr
   isCons : Bool
+  /-- `some x`: the entry only demands that `x` is a key of the scope (`MappingPulseTemplate._validate_parameters`);
+  `expr` is `.var x` then -/
+  key : Option String := none
   deriving Repr, Inhabited
 
-def consVis (σ : Scope) (cons : List Expr) : List Vis := cons.map (fun c => ⟨σ, c, true⟩)
-def needVis (σ : Scope) (es : List Expr) : List Vis := es.map (fun e => ⟨σ, e, false⟩)
+def consVis (σ : Scope) (cons : List Expr) : List Vis := cons.map (fun c => ⟨σ, c, true, none⟩)
+def needVis (σ : Scope) (es : List Expr) : List Vis := es.map (fun e => ⟨σ, e, false, none⟩)
+def keyVis (σ : Scope) (xs : List String) : List Vis := xs.map (fun x => ⟨σ, .var x, false, some x⟩)
 
 def evalPair (σ : Scope) (ke : String × Expr) : Option (String × Rat) :=
   match σ.eval ke.2 with
@@ -229,7 +233,7 @@ def visibleA : PT → Scope → List Vis
   | .rep .., _ => []
   | .forLoop .., _ => []
   | .mapping _ body pm _ _ cons, σ =>
-      consVis σ cons ++ needVis σ (pm.map (·.2)) ++
+      keyVis σ (kvVars pm ++ consVars cons) ++ consVis σ cons ++ needVis σ (pm.map (·.2)) ++
         (match mappedDict pm σ with
          | some σ' => visibleA body σ'
          | none => [])
@@ -277,11 +281,14 @@ def visibleList : List PT → Scope → List Vis
   | p :: ps, σ => visible p σ ++ visibleList ps σ
 end
 
-def visibleConstraints (pt : PT) (σ : Scope) : List (Scope × Expr) :=
-  ((visible pt σ).filter (·.isCons)).map (fun v => (v.scope, v.expr))
+/-- a proper constraint entry (not a key demand) -/
+def Vis.isConstraint (v : Vis) : Bool := v.isCons && v.key.isNone
 
-def visibleNeeds (pt : PT) (σ : Scope) : List (Scope × Expr) :=
-  ((visible pt σ).filter (fun v => !v.isCons)).map (fun v => (v.scope, v.expr))
+def consOf (l : List Vis) : List (Scope × Expr) := (l.filter Vis.isConstraint).map (fun v => (v.scope, v.expr))
+
+def visibleConstraints (pt : PT) (σ : Scope) : List (Scope × Expr) := consOf (visible pt σ)
+
+def visibleNeeds (pt : PT) (σ : Scope) : List Vis := (visible pt σ).filter (fun v => !v.isCons)
 
 /-- one constraint in the scope its node sees: `ParameterConstraint.is_fulfilled` -/
 def checkOne (se : Scope × Expr) : Except Err Unit := do
@@ -291,10 +298,24 @@ def checkOne (se : Scope × Expr) : Except Err Unit := do
 /-- the judge: the visible constraints validated in visiting order -/
 def consOutcome (l : List (Scope × Expr)) : Except Err Unit := l.forM checkOne
 
-/-- one visible entry in the scope its node sees: it must evaluate, a constraint must moreover be true -/
-def checkVis (v : Vis) : Except Err Unit := do
-  let x ← v.scope.eval v.expr
-  if v.isCons = true ∧ x = 0 then .error .constraintViolation else pure ()
+/-- `x` must be a key of the scope (no evaluation) -/
+def presentKey (σ : Scope) (x : String) : Except Err Unit :=
+  if σ.keys.contains x then pure () else .error .parameterMissing
+
+/-- one visible entry in the scope its node sees: a key must be present, an expression must evaluate, a
+constraint must moreover be true -/
+def checkVis (v : Vis) : Except Err Unit :=
+  match v.key with
+  | some x => presentKey v.scope x
+  | none => do
+    let x ← v.scope.eval v.expr
+    if v.isCons = true ∧ x = 0 then .error .constraintViolation else pure ()
+
+/-- specification (Prop) of `checkVis v = ok` -/
+def Vis.Fine (v : Vis) : Prop :=
+  match v.key with
+  | some x => v.scope.keys.contains x = true
+  | none => ∃ x, v.scope.eval v.expr = .ok x ∧ (v.isCons = true → x ≠ 0)
 
 /-- everything the visited nodes must evaluate, in visiting order -/
 def visOutcome (l : List Vis) : Except Err Unit := forM l checkVis
@@ -328,8 +349,8 @@ def consSx (se : Scope × Expr) : Sexp :=
   | some (c, a, b) => .list [st, .atom (cmpTag c), resSx (se.1.eval a), resSx (se.1.eval b)]
   | none => .list [st, .atom "other"]
 
-def needSx (se : Scope × Expr) : Sexp :=
-  match se.1.eval se.2 with
+def needSx (v : Vis) : Sexp :=
+  match checkVis v with
   | .ok _ => .atom "ok"
   | .error e => .atom e.tag
 
